@@ -2,6 +2,7 @@
 
 from __future__ import annotations
 
+import re
 from typing import Any, TypeGuard
 
 from .location import SourceLocation
@@ -10,6 +11,9 @@ __all__ = ["Source", "is_source"]
 
 DEFAULT_NAME = "GraphQL request"
 DEFAULT_SOURCE_LOCATION = SourceLocation(1, 1)
+
+# the line terminators of the GraphQL specification (and no other characters)
+_re_line_terminator = re.compile(r"\r\n|[\n\r]")
 
 
 class Source:
@@ -47,14 +51,8 @@ class Source:
 
     def get_location(self, position: int) -> SourceLocation:
         """Get source location."""
-        lines = self.body[:position].splitlines()
-        if lines:
-            line = len(lines)
-            column = len(lines[-1]) + 1
-        else:
-            line = 1
-            column = 1
-        return SourceLocation(line, column)
+        lines = _re_line_terminator.split(self.body[:position])
+        return SourceLocation(len(lines), len(lines[-1]) + 1)
 
     def __repr__(self) -> str:
         return f"<{self.__class__.__name__} name={self.name!r}>"
